@@ -86,9 +86,13 @@ def rand_scalar(rng: Any) -> Any:
 
 def rand_kwargs(rng: Any, depth: int = 0) -> dict[str, Any]:
     out: dict[str, Any] = {}
-    for k in rng.sample(["a", "b", "nested", "lst", "asphalt.core"], rng.randint(0, 3)):
+    # ("asphalt" and "asphalt.core" side by side, as the loggers of a logging configuration are: a dotted key is a key of its own,
+    # never a path into the mapping that happens to be named like its first part)
+    for k in rng.sample(["a", "b", "nested", "lst", "asphalt.core", "asphalt", "asphalt.core"], rng.randint(0, 4)):
         if k == "nested" and depth < 2:
             out[k] = rand_kwargs(rng, depth + 1)
+        elif k == "asphalt":
+            out[k] = {"level": rng.choice(["INFO", "DEBUG"]), **({"core": rand_scalar(rng)} if rng.random() < 0.3 else {})}
         else:
             out[k] = rand_scalar(rng)
     return out
